@@ -187,7 +187,15 @@ impl Check for C07 {
                         Family::Pad { owner } => {
                             let counter = match cx.rng.gen_range(0..10) {
                                 0..=5 => {
-                                    next_counter += cx.rng.gen_range(1..4);
+                                    // mostly small steps; sometimes a jump across 2^63 or to the very top of the range
+                                    next_counter = match cx.rng.gen_range(0..40) {
+                                        0 => next_counter.max((1u64 << 63) + cx.rng.gen_range(0..10)),
+                                        1 => next_counter.max(u64::MAX - cx.rng.gen_range(1..50)),
+                                        _ => next_counter.saturating_add(cx.rng.gen_range(1..4)),
+                                    };
+                                    if next_counter >= (1u64 << 63) {
+                                        cx.count("scratchpad-counters-above-2^63");
+                                    }
                                     next_counter
                                 }
                                 6..=7 => {
@@ -423,7 +431,11 @@ impl Check for C07 {
                         }
                     }
                     Family::Tx { owner } => {
-                        let set: BTreeSet<Transaction> = stored.as_ref().and_then(|r| try_deserialize_record::<Vec<Transaction>>(r).ok()).unwrap_or_default().into_iter().collect();
+                        let listed: Vec<Transaction> = stored.as_ref().and_then(|r| try_deserialize_record::<Vec<Transaction>>(r).ok()).unwrap_or_default();
+                        let set: BTreeSet<Transaction> = listed.iter().cloned().collect();
+                        if set.len() != listed.len() {
+                            cx.violation("stored-transaction-set-lists-a-transaction-twice", format!("the stored record lists {} transactions of which only {} are distinct", listed.len(), set.len()), w.clone());
+                        }
                         for t in &set {
                             if !t.verify() || t.owner != owner.public_key() {
                                 cx.violation("invalid-or-foreign-transaction-stored", "a stored transaction has an invalid signature or belongs to another owner".to_string(), w.clone());
